@@ -60,7 +60,12 @@ def run(ctx):
     for bb, i, s in st:
         v = nxt.origin_rvalue(s["rv"], bb, i, 0)
         if v[0] == "agg" and v[3] == "Some" and first:
-            base, off, ln = cursor.locate(v[4][0])
+            inner = v[4][0]
+            # a private single-field wrapper around the slice (`Some(NullBitmap(nullmap))`) stores the slice
+            while isinstance(inner, tuple) and inner and inner[0] == "agg" and inner[1] == "adt" and len(inner[4]) == 1 and \
+                    any(pth == inner[2] and a_.get("local") and a_.get("kind") == "struct" for pth, a_ in prog.adts.items()):
+                inner = inner[4][0]
+            base, off, ln = cursor.locate(inner)
             okn = off == Aff(0) and ln == want
     ctx.ob("C08.payload-offsets", okn, "the stored NULL bitmap is not payload[0 .. (params+7)/8)", fn=nxt.path, construct="nullmap-slice")
     nb = 0
